@@ -45,11 +45,11 @@ theorem logData_setBuf (c : Cfg) (d b : Bytes) (s : S) : logData c d (setBuf b s
   obtain ⟨⟨mode, buf, cap, closed⟩, outs, err⟩ := s
   obtain ⟨capMax, hasLog, strip, isStdout, outEv, errEv, btok, etok⟩ := c
   cases err with
-  | some e => simp [logData, setBuf, setP, guard]
+  | some e => simp [logData, mainCopy_id, setBuf, setP, guard]
   | none =>
     cases hd : d.isEmpty <;> cases strip <;> cases mode <;> cases hasLog <;> cases isStdout <;> cases outEv <;> cases errEv <;>
       cases hcm : (capMax != 0) <;>
-      simp [logData, setBuf, setP, guard, emit, log_g0, log_g1, log_g2, log_g5, log_g6, log_g7, log_g8, toggle_g0, hd, hcm]
+      simp [logData, mainCopy_id, setBuf, setP, guard, emit, log_g0, log_g1, log_g2, log_g5, log_g6, log_g7, log_g8, toggle_g0, hd, hcm]
 
 theorem toggle_setBuf (c : Cfg) (b : Bytes) (s : S) : toggle c (setBuf b s) = setBuf b (toggle c s) := by
   obtain ⟨⟨mode, buf, cap, closed⟩, outs, err⟩ := s
@@ -75,11 +75,11 @@ theorem logData_keeps (c : Cfg) (d : Bytes) (s : S) :
   obtain ⟨⟨mode, buf, cap, closed⟩, outs, err⟩ := s
   obtain ⟨capMax, hasLog, strip, isStdout, outEv, errEv, btok, etok⟩ := c
   cases err with
-  | some e => simp [logData, guard]
+  | some e => simp [logData, mainCopy_id, guard]
   | none =>
     cases hd : d.isEmpty <;> cases strip <;> cases mode <;> cases hasLog <;> cases isStdout <;> cases outEv <;> cases errEv <;>
       cases hcm : (capMax != 0) <;>
-      simp [logData, setP, guard, emit, log_g0, log_g1, log_g2, log_g5, log_g6, log_g7, log_g8, toggle_g0, hd, hcm]
+      simp [logData, mainCopy_id, setP, guard, emit, log_g0, log_g1, log_g2, log_g5, log_g6, log_g7, log_g8, toggle_g0, hd, hcm]
 
 theorem toggle_keeps (c : Cfg) (s : S) (he : s.err = none) :
     (toggle c s).err = none ∧ (toggle c s).p.mode = toggle_a0 c.capMax s.p.mode ∧ (toggle c s).p.buf = s.p.buf := by
